@@ -87,8 +87,6 @@ _SANE = "sane-model premise (closed model, positive areas/heights/thicknesses/co
 C14_DIV_EXCEPTIONS = {
     'c14.div|bemodel::<energy::props::EnergyProps as std::convert::From<&types::model::Model>>::from|divisor=utils::fround2(sum(map(BTreeMap::values(..),{closure})))':
         _SANE + "the net volume of habitable spaces inside the envelope is positive when a habitable space exists; without one the building has no ventilation rate to report",
-    'c14.div|bemodel::<energy::props::EnergyProps as std::convert::From<&types::model::Model>>::from|divisor=model.spaces[].illuminance@Some.0':
-        _SANE + "illuminance is stored as Some only when > f32::EPSILON (converter) and is a positive physical datum",
     'c14.div|bemodel::energy::radiation::<impl types::model::Model>::compute_fshobst|divisor=len(map[].1.fshdir)':
         "an ObstData entry exists only after at least one push (entry().or_default() is followed by three pushes); the July tables have >= 1 row per zone [C20-D1]",
     'c14.div|bemodel::energy::radiation::<impl types::model::Model>::compute_fshobst|divisor=Add(index(map[].1.dir,Range{..}[]),index(map[].1.dif,Range{..}[]))':
